@@ -8,8 +8,6 @@
                        `(f or g)(x)`, `(a).b`, `("x"):len()`  - known finding C09-paren-suffix-assert
    no_if_do ts t       no `if c do ... end` (the parser takes `do` for `then`; the writer expects `then`)
                        - known finding C09-shortif-do-body-assert
-   no_empty_short_else t   no one-line `if (c) ... else` with nothing (or only `;`) after the `else`: the parser
-                       drops the else branch from the tree, the writer then meets the `else` token unprepared
    strict t            the forms the parser accepts although they are not programs of the dialect, on which the
                        writer raises:  `()` as an expression in front of a table constructor / unary operator
                        or as a table field (`x=(){}`, `x=()-1`, `{()}`), an empty first table field (`{,1}`),
@@ -70,22 +68,6 @@ Fixpoint no_if_do (t : tree) : bool :=
   end.
 End WithTokens.
 
-Fixpoint no_empty_short_else (t : tree) : bool :=
-  match t with
-  | Node tag _ _ sh fs =>
-      (if (tag =? tStatIf) && sh then
-         match fs with
-         | [_; Lst pairs] => negb (existsb is_hid pairs)
-         | _ => true
-         end
-       else true)
-      && forallb no_empty_short_else fs
-  | Lst l => forallb no_empty_short_else l
-  | Paren _ _ x => no_empty_short_else x
-  | Hid x => no_empty_short_else x
-  | _ => true
-  end.
-
 (* the condition of an if / elseif pair [cond; Kw then; block] is present *)
 Definition pair_has_cond (p : tree) : bool :=
   match p with
@@ -127,7 +109,7 @@ Fixpoint strict (t : tree) : bool :=
 
 (* the domain of C09_aligned *)
 Definition writable (ts : list token) (root : tree) : bool :=
-  plain_tokens ts && no_paren_prefix root && no_if_do ts root && no_empty_short_else root && strict root.
+  plain_tokens ts && no_paren_prefix root && no_if_do ts root && strict root.
 
 (* ---------- what the aligned chunk list must be ---------- *)
 (* (index, code) of the significant tokens, in order *)
